@@ -440,6 +440,43 @@ func c18(c *Ctx) {
 		}
 	})
 	R.Check("C18.kill", "C18.kill/processKill", c.rel(p.Pos(kill.Pos())), "processKill calls every collected cancel function", okAll, "cancel loop not found")
+	// … and collects the cancel function of EVERY node it dequeues and enqueues all its children:
+	// no iteration of the walk may skip that (a DONE node's context is still live; skipping it, or
+	// its subtree, leaves services running after the supervisor's context was cancelled)
+	ctxCF := must(p.FieldOf(pkgSup, "node", "ctxC"), "node.ctxC")
+	var collect ssa.Instruction
+	eachInstr(kill, func(i ssa.Instruction) {
+		if cl, ok := i.(*ssa.Call); ok && facts.CalleeName(&cl.Call) == "append" && len(cl.Call.Args) == 2 {
+			if el := singleVararg(cl.Call.Args[1]); el != nil && loadedField(strip(el)) == ctxCF {
+				collect = cl
+			}
+		}
+	})
+	okEvery, whyEvery := false, "no `cancels = append(cancels, cur.ctxC)` found"
+	if collect != nil {
+		for _, l := range facts.LoopsOf(kill) {
+			if !l.Body()[collect.Block()] {
+				continue
+			}
+			okEvery, whyEvery = true, ""
+			cuts := facts.Cuts{}
+			for _, lt := range l.Latches {
+				for k, sc := range lt.Succs {
+					if sc == l.Header {
+						cuts[facts.Edge{B: lt.Index, K: k}] = true
+					}
+				}
+			}
+			for _, lt := range l.Latches {
+				last := lt.Instrs[len(lt.Instrs)-1]
+				if !facts.BeforeFrom(l.Header, last, cuts, func(i ssa.Instruction) bool { return i == collect }) {
+					okEvery, whyEvery = false, "an iteration of the walk can reach the loop's back edge at "+c.rel(p.Pos(instrPos(last)))+" without collecting the dequeued node's cancel function"
+				}
+			}
+			break
+		}
+	}
+	R.Check("C18.kill", "C18.kill/processKill/every-node", c.rel(p.Pos(kill.Pos())), "every node dequeued by processKill has its cancel function collected (no state-dependent skip)", okEvery, whyEvery)
 }
 
 func allReturns(fn *ssa.Function) []*ssa.Return {
